@@ -13,6 +13,7 @@ stores to memory (memory checks are C23/C24; the correspondence stream only uses
 Gas is not modelled (the property says the cache only changes gas). Core Lean only.
 -/
 import FuelVerif.Basic.Util
+import FuelVerif.Gen.StorageSites
 namespace FuelVerif.Storage
 open FuelVerif
 
@@ -21,7 +22,7 @@ def U64_MAX : Nat := 2 ^ 64 - 1
 def satAdd (a b : Nat) : Nat := if a + b > U64_MAX then U64_MAX else a + b
 
 /-- `convert::to_usize`: `usize::try_from(u32::try_from(value).ok()?).ok()` -/
-def toUsize (v : Nat) : Option Nat := if v < 2 ^ 32 then some v else none
+def toUsize (v : Nat) : Option Nat := if v < 2 ^ Gen.StorageSites.toUsizeBits then some v else none
 
 /-- (contract id, slot key) — `ContractsStateKey` / the cache key `(ContractId, Bytes32)` -/
 abbrev Slot := Bytes × Nat
